@@ -13,7 +13,7 @@ def sweep(ctx, n):
 
     rng, fails, done, kinds = ctx.rng, [], 0, {}
     KINDS = ["cuboid-split", "cuboid-mesh-tetra-triangles", "cylinder-segments", "sphere-dipole", "mesh-converters", "polyline-circle",
-             "polyline-split", "segment-angle-turns", "cuboid-mesh-lattice", "mesh-row", "vertex-touching"]
+             "polyline-split", "segment-angle-turns", "cuboid-mesh-lattice", "mesh-row", "vertex-touching", "glued"]
 
     def rel(a, b):
         return float(np.max(np.abs(a - b)) / (np.max(np.abs(b)) + 1e-300))
@@ -223,6 +223,44 @@ def sweep(ctx, n):
                 mesh = magpy.magnet.TriangularMesh(vertices=verts, faces=flipped[order], polarization=pol, check_selfintersecting="skip")
                 obs = np.concatenate([far_points(nps, 3, lo=2.5, hi=6), np.array(inner)])
                 err = rel(get(mesh, obs), get(bodies, obs, sumup=True))
+            elif kind == "glued":
+                # a random convex body cut by a random plane through its centroid into two convex bodies (the points on each side
+                # plus the corners of the cut polygon), each a TriangularMesh of its own convex hull: field of the whole = sum of
+                # the fields of the parts (B or H, and J), far away, inside either part and near (not on) the cut, at lengths
+                # 1e-6 ... 1e3 (cf. trimesh_glue_additive / tetra_list_glue: internal walls cancel, inside exactly one part)
+                from scipy.spatial import ConvexHull
+                gsc = 10.0 ** rng.choice([-6, -4, -3, 0, 0, 2, 3])
+                pts = nps.uniform(-1, 1, (rng.choice([6, 8, 12, 20]), 3)) * gsc
+                hull = ConvexHull(pts)
+                hv = pts[hull.vertices]
+                cen = hv.mean(axis=0)
+                nrm = nps.normal(size=3)
+                nrm /= np.linalg.norm(nrm)
+                sd = (hv - cen) @ nrm
+                if np.min(np.abs(sd)) < 1e-3 * gsc:
+                    done += 1
+                    continue  # a vertex (almost) in the cut plane: not the generic situation this case is about
+                edges = {tuple(sorted((int(f[i]), int(f[(i + 1) % 3])))) for f in hull.simplices for i in range(3)}
+                cutpts = []
+                for a_, b_ in edges:
+                    da, db = (pts[a_] - cen) @ nrm, (pts[b_] - cen) @ nrm
+                    if da * db < 0:
+                        cutpts.append(pts[a_] + (pts[b_] - pts[a_]) * (da / (da - db)))
+                cutpts = np.array(cutpts)
+                side = [np.concatenate([hv[sd > 0], cutpts]), np.concatenate([hv[sd < 0], cutpts])]
+                whole = magpy.magnet.TriangularMesh.from_ConvexHull(points=hv, polarization=pol)
+                parts = [magpy.magnet.TriangularMesh.from_ConvexHull(points=q, polarization=pol) for q in side]
+                inner = []
+                for q in side:
+                    w_ = nps.dirichlet(np.ones(len(q)), 2)
+                    inner += [q.mean(axis=0), *(w_ @ q)]
+                near = [cen + s_ * 1e-3 * gsc * nrm for s_ in (-1, 1)]
+                local = np.concatenate([far_points(nps, 3, lo=2.5, hi=6) * gsc, np.array(inner), np.array(near)])
+                wc, pc = place([whole]), place(parts)
+                obs = ori.apply(local) + pos
+                err = rel(get(pc, obs), get(wc, obs))
+                jw = magpy.getJ(wc, obs)
+                err = max(err, rel(magpy.getJ(pc, obs), jw), float(np.max(np.abs(jw[3:] - ori.apply(pol)))) / (np.max(np.abs(pol)) + 1e-300))
             elif kind == "polyline-circle":
                 nseg = 4000
                 ph = np.linspace(0, 2 * np.pi, nseg + 1)
